@@ -12,9 +12,9 @@ func TestDbgC29(t *testing.T) {
 	rapid.Check(t, func(t *rapid.T) {
 		root := genProgram(t)
 		want, _, d := runModel(root)
-		if d == "" && (want.exc == "<toomany>" || want.exc == "<convert>" || want.exc == "<cantcall>") {
+		if d == "" && (want.exc == "<cantcall>") {
 			n++
-			if n%45 == 0 {
+			if n%25 == 0 {
 				fmt.Println(renderProgram(root), "=>", want)
 			}
 		}
